@@ -3,8 +3,8 @@
 import json, os, sys
 ROOT = os.path.dirname(os.path.dirname(os.path.abspath(__file__)))
 sys.path.insert(0, os.path.join(ROOT, "lib"))
-from props import PROPS
-from manifest_meta import META, NOT_APPLICABLE, ENGINES, HOOK_COMMITS
+from props import PROPS, META
+from manifest_meta import NOT_APPLICABLE, ENGINES, HOOK_COMMITS
 
 props = [json.loads(l) for l in open(os.path.join(ROOT, "properties.jsonl"))]
 checks = []
